@@ -124,15 +124,21 @@ def correspond(ctx):
         x = xs_for(rng, dom, n, 'uniform')
         y = y_for(rng, x)
         for order in (1, 2):
-            try:
-                b, p = Baseline(x).loess(y, poly_order=order, fraction=0.5, return_coef=True, delta=0.0)
-            except Exception:
-                continue
-            ctx.case(('loess-coef', dom, order), nontrivial=True)
-            for i in range(0, n, 7):
-                lines.append(f'c08.evalb {qs(p["coef"][i])} {q(x[i])}')
-                checks.append(('evalb', {'method': 'loess', 'x': [float(x[i])], 'two_d': False, 'kw': {'poly_order': order}, 'point': i,
-                                         'y': []}, (b[i:i + 1], order)))
+            # both memory strategies, with and without skipped points (delta), several robust iterations
+            for cm, delta_frac, mi in ((True, 0.0, 10), (False, 0.0, 3), (True, 0.12, 3), (False, 0.12, 3), (False, 0.3, 1)):
+                lkw = dict(poly_order=order, fraction=0.5, return_coef=True, delta=float(delta_frac * (x.max() - x.min())), conserve_memory=cm, max_iter=mi)
+                try:
+                    b, p = Baseline(x).loess(y, **lkw)
+                except Exception:
+                    continue
+                ctx.case(('loess-coef', dom, order, cm, delta_frac, mi), nontrivial=True)
+                ctx.count('loess-coef')
+                coef = np.asarray(p['coef'])
+                fitted = np.flatnonzero(np.any(coef != 0, axis=1))
+                for i in (fitted[::max(1, len(fitted) // 5)] if len(fitted) else []):
+                    lines.append(f'c08.evalb {qs(coef[i])} {q(x[i])}')
+                    checks.append(('evalb', {'method': 'loess', 'x': [float(x[i])], 'two_d': False, 'kw': {k: v for k, v in lkw.items() if k != 'return_coef'},
+                                             'point': int(i), 'y': []}, (b[i:i + 1], order)))
     # 2-D (one fitter object per method is reused over the order / max_cross combinations, as a user would)
     for (name, extra) in METHODS_2D:
         dx, dz = DOMAINS[int(rng.integers(0, len(DOMAINS)))], DOMAINS[int(rng.integers(0, len(DOMAINS)))]
